@@ -2,7 +2,7 @@
    run) are inside the proved envelopes, so the ring theorems hold for every modulus the rings advertise. *)
 From Coq Require Import ZArith Bool Lia List.
 From C03 Require Import Model ModelF Params ProofsBase ProofsInt ProofsIntA ProofsIntB ProofsIntC ProofsIntR ProofsIntM ProofsIntX
-  ProofsIntY ProofsIntZ ProofsIntInv ProofsRU ProofsFM.
+  ProofsIntY ProofsIntZ ProofsIntInv ProofsRU ProofsFM ProofsBarrett ProofsBarrettM ProofsBarrettS ProofsBarrettU.
 Import ListNotations.
 Local Open Scope Z_scope.
 
@@ -156,3 +156,7 @@ Proof.
   apply (fm_exact pe pc m p). split; [ | lia ].
   cbn [In] in Hin. unfold fm_cfg. intuition.
 Qed.
+
+(* ---- mul_precomp_p (Barrett): every instantiated width pair, inside the asserted precondition of precomp_p *)
+Lemma mulpp_exact sb sg cb p : Mulpp_stmt sb sg cb p.
+Proof. destruct sg; [ apply mulpp_exact_signed | apply mulpp_exact_unsigned ]. Qed.
